@@ -207,6 +207,19 @@ func newSession(r *hx.Run, rng *gen.Rng, id string, w, h int, rgb, su, ew, sync,
 		d = append(d, fmt.Sprintf("%s:%d", hx.Hex(g), vx.RenderedWidth(g)))
 	}
 	r.Emit("dict "+strings.Join(d, " "), "-")
+	// pairs of the alphabet the emulator's parser would merge when written back to back (none at present)
+	for _, a := range alphabet {
+		for _, b := range alphabet {
+			if a == "" || b == "" {
+				continue
+			}
+			if cl, _, _, _ := uniseg.FirstGraphemeClusterInString(a+b, -1); cl != a {
+				r.Emit(fmt.Sprintf("merges %s %s %s", hx.Hex(a), hx.Hex(b), hx.Hex(cl)), "-")
+				r.Emit(fmt.Sprintf("dict %s:%d", hx.Hex(cl), vx.RenderedWidth(cl)), "-")
+				r.Count("merges-declared-alphabet")
+			}
+		}
+	}
 	// the emulator MODEL (composition stream) continues from the real emulator's state after start-up
 	r.Emit("emuadopt", emuh.Snapshot(emu.VerifSnapshot()))
 	return s, nil
